@@ -570,6 +570,8 @@ class Verifier(Exec):
                         not isinstance(a, tuple) and parse_kind(a)[0] == "ref" for a in alts):
                     s.env["result"] = SV("ref", z3.IntVal(0))
             for nm, txt in con.ensures.items():
+                if self.mode == "evict" and (" is old(" in txt or "fresh(" in txt):
+                    continue      # object identity of the lists is not preserved across a reload
                 try:
                     goal = self.spec(txt, ctx, state=s)
                     detail = ""
@@ -587,6 +589,8 @@ class Verifier(Exec):
             s.env = dict(pre.env)
             if isinstance(o[1].z, list):
                 s.env["exc_args"] = SV("tuple", None, o[1].z)
+            if self.mode == "faulty" and ecls == "TypeError" and s.ghost.get("cmp_typeerror"):
+                ecls = "CompareError"     # a TypeError raised by the comparison itself
             if ecls == "CompareError" and self.mode == "faulty" and ecls not in con.raises:
                 # C14: a failing key comparison must reach the caller and leave
                 # every object as it was (or as the contract says under
@@ -633,7 +637,7 @@ class Verifier(Exec):
 
     def frame_obligations(self, con, pre, s, tag, modifies=None):
         """Everything not listed in `modifies` and not fresh is unchanged."""
-        if con.ghost.get("no_frame"):
+        if con.ghost.get("no_frame") or self.mode == "evict":
             return
         mods = con.modifies if modifies is None else modifies
         tmp = Contract("tmp", modifies=mods)
